@@ -12,6 +12,12 @@ func VerifC05Retained() {
 	pub, _ := vNewClient(s, "pub", 5)
 	cl, c := vNewClient(s, "c1", 5)
 	topics := []string{"a/b", "a/c"}
+	filter := "a/+"
+	if vParam("NEST", 0) == 1 {
+		// parent and child topic, read back through a trailing '#'
+		topics = []string{"a", "a/b"}
+		filter = "a/#"
+	}
 	// history of h publishes, each to one of two topics, retain flag and payload symbolic
 	h := vParam("H", 2)
 	last := [2]byte{} // model: tag of the last retained non-empty payload per topic, 0 = none
@@ -38,9 +44,8 @@ func VerifC05Retained() {
 	rh := vByteIn("\x00\x01\x02")
 	shared := vBool()
 	existed := vBool()
-	filter := "a/+"
 	if shared {
-		filter = "$share/g/a/+"
+		filter = "$share/g/" + filter
 	}
 	sub := packets.Subscription{Filter: filter, Qos: 0, RetainHandling: rh, Identifier: vChoose(2)}
 	if existed {
